@@ -7,9 +7,12 @@ package remotecheck
 
 import (
 	"bufio"
+	"bytes"
 	"context"
 	"encoding/json"
+	"errors"
 	"fmt"
+	"io"
 	"net"
 	"strings"
 	"sync"
@@ -54,6 +57,8 @@ type RPlan struct {
 	Data map[string]string `json:"data"`
 	St   map[string]string `json:"st"`
 	Drop *int              `json:"drop"` // LMTP: answers sent before the connection breaks (absent or >= 3: no break)
+	Src  string            `json:"src"`  // body source / transfer fault: "" | ok | noopen | readfail | reset
+	Late int               `json:"late"` // list position whose RCPT reply is overdue (0 = none)
 }
 
 type RTxn struct {
@@ -114,6 +119,13 @@ func (stubResolver) LookupIPAddr(ctx context.Context, host string) ([]net.IPAddr
 	return []net.IPAddr{{IP: net.IPv4(127, 0, 0, 1)}}, nil
 }
 
+func srcOf(p RPlan) string {
+	if p.Src == "" {
+		return "ok"
+	}
+	return p.Src
+}
+
 func dropOf(p RPlan) int {
 	if p.Drop == nil {
 		return 3
@@ -134,8 +146,70 @@ func replyFor(res string, tempCode, permCode int) scripted.SMTPReply {
 // scriptFor builds the next-hop script of domain class d (or of the single LMTP
 // next hop) from a plan. Per-address replies are registered under the address as
 // given and under its ASCII form.
+// lateRcptOn tells which RCPT command (1-based) on the next hop of class d is the one for list
+// position p.Late: the RCPT commands on one connection are the list's recipients of that class
+// that the client can put on the wire.
+func lateRcptOn(kind string, utf8 bool, rcpts []string, p RPlan, d string) int {
+	if p.Late < 1 || p.Late > len(rcpts) {
+		return 0
+	}
+	onWire := func(id string) bool { return utf8 || id != "nl" }
+	class := func(id string) string {
+		if kind == "lmtp" {
+			return "D1"
+		}
+		return domClass(dom(addrOfID[id]))
+	}
+	if class(rcpts[p.Late-1]) != d || !onWire(rcpts[p.Late-1]) {
+		return 0
+	}
+	n := 0
+	for _, id := range rcpts[:p.Late] {
+		if class(id) == d && onWire(id) {
+			n++
+		}
+	}
+	return n
+}
+
+func dom(a string) string { return a[strings.LastIndex(a, "@")+1:] }
+
+// body sources
+type failingBuffer struct {
+	mode string
+	data []byte
+}
+
+type failingReader struct {
+	data []byte
+	pos  int
+}
+
+func (r *failingReader) Read(p []byte) (int, error) {
+	if r.pos >= len(r.data)/2 {
+		return 0, errors.New("scripted: body source failed half-way")
+	}
+	n := copy(p, r.data[r.pos:len(r.data)/2])
+	r.pos += n
+	return n, nil
+}
+func (r *failingReader) Close() error { return nil }
+
+func (b failingBuffer) Open() (io.ReadCloser, error) {
+	switch b.mode {
+	case "noopen":
+		return nil, errors.New("scripted: body cannot be opened")
+	case "readfail":
+		return &failingReader{data: b.data}, nil
+	}
+	return io.NopCloser(bytes.NewReader(b.data)), nil
+}
+func (b failingBuffer) Len() int      { return len(b.data) }
+func (b failingBuffer) Remove() error { return nil }
+
 func scriptFor(kind string, p RPlan, d string) *scripted.SMTPTxn {
 	t := &scripted.SMTPTxn{RcptFor: map[string]scripted.SMTPReply{}, LMTPDotFor: map[string]scripted.SMTPReply{}}
+	t.ResetInData = p.Src == "reset"
 	t.Mail = replyFor(p.Mail[d], 451, 550)
 	if kind == "lmtp" && p.Drop != nil && *p.Drop < 3 {
 		t.LMTPDrop = *p.Drop + 1
@@ -230,12 +304,22 @@ func runRcptBehaviour(t *testing.T, b RBehaviour, out *bufio.Writer) {
 			if i < 1 || i > len(b.Txns) {
 				return nil
 			}
-			return scriptFor(b.Cfg.Kind, b.Txns[i-1].Plan, d)
+			sc := scriptFor(b.Cfg.Kind, b.Txns[i-1].Plan, d)
+			sc.LateRcpt = lateRcptOn(b.Cfg.Kind, b.Cfg.UTF8, b.Txns[i-1].Rcpts, b.Txns[i-1].Plan, d)
+			return sc
 		})
 		servers[d] = srv
 		snet.Add("mx-"+strings.ToLower(d)+".test.invalid", srv)
 	}
 
+	// a behaviour with an overdue reply is run with a short command time-out (the scripted next hop
+	// withholds that reply until the client has moved on, so nothing else depends on the value)
+	cmdTimeout := 20 * time.Second
+	for _, tx := range b.Txns {
+		if tx.Plan.Late > 0 {
+			cmdTimeout = time.Second
+		}
+	}
 	var tgt module.DeliveryTarget
 	closeTgt := func() {}
 	defer func() {
@@ -258,7 +342,7 @@ func runRcptBehaviour(t *testing.T, b RBehaviour, out *bufio.Writer) {
 			ConnReuseLimit:    10,
 			RelaxedREQUIRETLS: true,
 			ConnectTimeout:    20 * time.Second,
-			CommandTimeout:    20 * time.Second,
+			CommandTimeout:    cmdTimeout,
 			SubmissionTimeout: 20 * time.Second,
 			Log:               nolog,
 		})
@@ -272,7 +356,7 @@ func runRcptBehaviour(t *testing.T, b RBehaviour, out *bufio.Writer) {
 		err = mod.Init(config.NewMap(map[string]interface{}{"hostname": "client.example.org"}, config.Node{
 			Children: []config.Node{
 				{Name: "connect_timeout", Args: []string{"20s"}},
-				{Name: "command_timeout", Args: []string{"20s"}},
+				{Name: "command_timeout", Args: []string{cmdTimeout.String()}},
 				{Name: "submission_timeout", Args: []string{"20s"}},
 			},
 		}))
@@ -295,7 +379,7 @@ func runRcptBehaviour(t *testing.T, b RBehaviour, out *bufio.Writer) {
 		meta := &module.MsgMetadata{ID: fmt.Sprintf("b%dt%d", b.ID, i+1), OriginalFrom: from,
 			SMTPOpts: smtp.MailOptions{UTF8: utf8}}
 		tr.Emit("Txn", vtrace.Ev{"n": i + 1, "rcpts": tx.Rcpts, "plan": map[string]interface{}{
-			"mail": tx.Plan.Mail, "rcpt": tx.Plan.Rcpt, "data": tx.Plan.Data, "st": tx.Plan.St, "drop": dropOf(tx.Plan)}})
+			"mail": tx.Plan.Mail, "rcpt": tx.Plan.Rcpt, "data": tx.Plan.Data, "st": tx.Plan.St, "drop": dropOf(tx.Plan), "src": srcOf(tx.Plan), "late": tx.Plan.Late}})
 		d, err := tgt.Start(ctx, meta, from)
 		if b.Cfg.Kind == "lmtp" {
 			tr.Emit("Ret", vtrace.Ev{"op": "start", "r": "", "res": class(err), "err": errText(err)})
@@ -324,7 +408,21 @@ func runRcptBehaviour(t *testing.T, b RBehaviour, out *bufio.Writer) {
 			t.Fatalf("behaviour %d: delivery object %T does not report per-recipient results", b.ID, d)
 		}
 		rec := &recStatus{}
-		pd.BodyNonAtomic(ctx, rec, testHeader(), buffer.MemoryBuffer{Slice: []byte("hello\r\n")})
+		var body buffer.Buffer = buffer.MemoryBuffer{Slice: []byte("hello\r\n")}
+		switch tx.Plan.Src {
+		case "noopen", "readfail":
+			body = failingBuffer{mode: tx.Plan.Src, data: bytes.Repeat([]byte("0123456789abcdef0123456789abcde\r\n"), 64)}
+		case "reset": // large enough for the client to be still writing when the next hop resets
+			body = failingBuffer{mode: "ok", data: bytes.Repeat([]byte("0123456789abcdef0123456789abcde\r\n"), 256*1024)}
+		}
+		func() {
+			defer func() {
+				if r := recover(); r != nil { // a panic reports nothing: the collected statuses stand
+					tr.Emit("Panic", vtrace.Ev{"what": fmt.Sprint(r)})
+				}
+			}()
+			pd.BodyNonAtomic(ctx, rec, testHeader(), body)
+		}()
 		rec.mu.Lock()
 		sts := append([]map[string]interface{}{}, rec.sts...)
 		addrs := append([]string{}, rec.addrs...)
